@@ -394,3 +394,54 @@ fn c14_4b_scoped_spawn_defers_the_join_of_its_child() {
     assert!(unsafe { JOINS } == 1 && unsafe { JOINED } == unsafe { SPAWNED_JOIN }, "[C14.4-joins-its-child] the deferred destructor joins exactly the coroutine that was spawned, once");
     std::mem::forget(scope);
 }
+
+//@ obligation: C14.4c
+//@ property: C14
+//@ kind: K3
+//@ complete: yes
+//@ functions: ScopedJoinHandle::join, JoinState::join, Scope::drop_all
+//@ statement: ScopedJoinHandle::join waits for the child (exactly one join of exactly that coroutine) BEFORE it takes the result, returns the value the child
+//@ statement: stored, and the scope's deferred destructor afterwards does not join a second time
+#[kani::proof]
+#[kani::stub(crate::scheduler::get_scheduler, sup::get_scheduler_stub)]
+#[kani::stub(<crate::park::Park as std::ops::Drop>::drop, sup::park_drop_noop)]
+#[kani::stub(crate::scoped::spawn_unsafe_builder, spawn_contract)]
+#[kani::stub(crate::join::JoinHandle::join, join_stores_the_result)]
+#[kani::stub(std::thread::panicking, panicking_stub)]
+#[kani::unwind(9)]
+fn c14_4c_scoped_join_returns_the_result_once() {
+    unsafe {
+        SPAWNS = 0;
+        JOINS = 0;
+        IN_CO = false;
+        PANICKING_NOW = false;
+        JOINED = std::ptr::null();
+        RESULT = kani::any();
+    }
+    let mut scope = Scope { dtors: RefCell::new(None) };
+    let h = unsafe { scope.spawn(|| 0u8) };
+    unsafe { RESULT_SLOT = std::sync::Arc::as_ptr(&h.packet) };
+    std::mem::forget(h.packet.clone());
+    let v = h.join();
+    assert!(unsafe { JOINS } == 1 && unsafe { JOINED } == unsafe { SPAWNED_JOIN }, "[C14.4-join-waits] ScopedJoinHandle::join waits for exactly its child, once");
+    assert!(v == unsafe { RESULT }, "[C14.4-result] the value returned is the one the child stored (it is read only after the child has finished)");
+    scope.drop_all();
+    assert!(unsafe { JOINS } == 1, "[C14.4-not-joined-twice] a child that was joined through its handle is not joined again at scope exit");
+    std::mem::forget(scope);
+}
+
+static mut RESULT: u8 = 0;
+static mut RESULT_SLOT: *const AtomicOption<u8> = std::ptr::null();
+/// contract of `JoinHandle::join` (C01): returns only after the child has finished — which is when the child's closure
+/// has stored its result. Reading the result slot before this point finds it empty.
+fn join_stores_the_result<T>(h: crate::join::JoinHandle<T>) -> std::thread::Result<T> {
+    unsafe {
+        JOINS += 1;
+        JOINED = h.vk_join_ptr();
+        if !RESULT_SLOT.is_null() {
+            (*RESULT_SLOT).store(RESULT);
+        }
+    }
+    std::mem::forget(h);
+    Ok(unsafe { std::mem::transmute_copy::<(), T>(&()) })
+}
